@@ -56,6 +56,8 @@ KERNEL size_t K(k_dynshape##DIM##SFX)(const size_t* shape, const int* kinds, con
 KERNEL size_t K(k_dynindex##DIM##SFX)(const size_t* shape, const int* kinds, const int* p, size_t ns, const size_t* idx, size_t nidx, size_t* out){ \
   auto sh = mk_arr<size_t,DIM>(shape); LIST sl; mk_dslices(sl,kinds,p,ns); \
   auto r = ix::dynamic_slice(mk_sv<size_t,4>(idx,nidx), sh, sl); return put(r,out); }
+DYN(1,,nmtools_list<d_slice_t>)
+DYN(1,_sv,d_sv_t)
 DYN(2,,nmtools_list<d_slice_t>)
 DYN(3,,nmtools_list<d_slice_t>)
 DYN(2,_sv,d_sv_t)
